@@ -375,8 +375,8 @@ func c02Respell(p c02Posting) []c02Posting {
 	}
 	cands := []string{}
 	if frac != "" {
-		cands = append(cands, intPart+","+frac)           // decimal comma
-		cands = append(cands, canon+"0")                  // trailing zero
+		cands = append(cands, intPart+","+frac) // decimal comma
+		cands = append(cands, canon+"0")        // trailing zero
 		if len(intPart) > 3 {
 			cands = append(cands, group(",")+"."+frac, group(".")+","+frac, group(" ")+"."+frac, group(" ")+","+frac)
 		}
